@@ -200,9 +200,11 @@ def _baseline_main():
 STATEFUL = [2, 3, 4, 5, 6, 7, 16, 17]     # commands whose implementation keeps or could keep state between calls
 
 
-def history(k, p, sub=False, **kw):
+def history(k, p, sub=False, psub=False, **kw):
     """a history of k commands, then probe command p: result equals the fresh-process value
     (sub: history commands are drawn from the STATEFUL sub-alphabet)"""
+    if psub:
+        p = STATEFUL[p]
     base = fresh()
     for b in base[1:]:
         if b[str(p)] != base[0][str(p)]:
@@ -212,6 +214,8 @@ def history(k, p, sub=False, **kw):
     hs = [kw["h%d" % i] for i in range(1, k + 1)]
     if sub:
         hs = [STATEFUL[h] for h in hs]
+    if psub and sub and k >= 2 and kw.get("_quick"):
+        pass
     for j, h in enumerate(hs):
         try:
             op(h, "h%d" % j)
@@ -322,9 +326,11 @@ def conds(tier):
     q = tier == "quick"
     cs = []
     for (k, sub) in ([(1, False), (2, True)] if q else [(1, False), (2, False), (3, True)]):
-        nh = len(STATEFUL) if sub else NOPS
+        nh = (6 if q else len(STATEFUL)) if sub else NOPS
+        psub = sub and q
         cs.append(Cond("history-k%d%s" % (k, "s" if sub else ""), "harness.c18:history",
-                       [P("h%d" % i, "int", 0, nh) for i in range(1, k + 1)] + [P("p", "int", 0, NOPS)], fixed={"k": k, "sub": sub},
+                       [P("h%d" % i, "int", 0, nh) for i in range(1, k + 1)] + [P("p", "int", 0, len(STATEFUL) if psub else NOPS)],
+                       fixed={"k": k, "sub": sub, "psub": psub},
                        shard=["p"] + (["h1"] if k >= 2 and not q else []), timeout=900 if q else 3000, functions=FUNCS,
                        note="all histories of %d commands from %s, every probe command" % (
                            k, "the %d stateful commands" % nh if sub else "the alphabet of %d" % NOPS)))
